@@ -192,6 +192,11 @@ func c09EmptyWindow(p *Prog, r *c09Roles, v ssa.Value, depth int) (bool, string)
 		if !chk(r.Sum, 0) || !chk(r.MaxIF, 0) || !chk(r.Count, 0) || !chk(r.Min, 0, math.MaxInt64) {
 			return false, "the new window does not start from count 0 / sum 0 / max-in-flight 0 / no minimum"
 		}
+		if chk(r.Min, 0) && !c09CtorMapsZeroMin(p, r) {
+			// "no minimum yet" is spelled 0 at this call site: the constructor must turn it into +infinity, or every
+			// positive RTT compares larger than the minimum and the window's minimum stays 0
+			return false, "the new window is created with minimum 0, and the constructor stores it as given (it does not map 0 to 'no minimum')"
+		}
 		if b, ok := constBool(args[r.CtorPos[r.Drop.Index]]); !ok || b {
 			return false, "the new window does not start with the drop flag cleared"
 		}
@@ -1117,4 +1122,63 @@ func c09AddCalls(p *Prog, r *c09Roles, v ssa.Value, f *ssa.Function) []string {
 	}
 	walk(v)
 	return out
+}
+
+// c09CtorMapsZeroMin: the window constructor stores MaxInt64 into the minimum field on every path on which its minimum
+// argument is 0.
+func c09CtorMapsZeroMin(p *Prog, r *c09Roles) bool {
+	ctor := r.Ctor
+	if ctor == nil || ctor.Blocks == nil {
+		return false
+	}
+	pos := r.CtorPos[r.Min.Index]
+	if pos >= len(ctor.Params) {
+		return false
+	}
+	prm := ctor.Params[pos]
+	ok, n := true, 0
+	EnumPaths(ctor, 10000, func(pa *Path) bool {
+		if !pa.IsReturn() {
+			return true
+		}
+		zero, known := false, false
+		for _, rel := range pa.Rels(-1) {
+			for _, rr := range []Rel{rel, {X: rel.Y, Y: rel.X, Op: flipOp(rel.Op)}} {
+				if strip(rr.X, true) == ssa.Value(prm) {
+					if k, isC := constInt(strip(rr.Y, true)); isC && k == 0 {
+						switch rr.Op {
+						case token.EQL:
+							zero, known = true, true
+						case token.NEQ:
+							zero, known = false, true
+						}
+					}
+				}
+			}
+		}
+		if !known || !zero {
+			// the path did not single out 0: then 0 is stored as given
+			if !known {
+				ok = false
+			}
+			return true
+		}
+		n++
+		stored := false
+		pa.Each(func(step int, ins ssa.Instruction) bool {
+			if st, isS := ins.(*ssa.Store); isS {
+				if fa, isF := st.Addr.(*ssa.FieldAddr); isF && fa.Field == r.Min.Index {
+					if k, isC := constInt(strip(pa.Resolve(st.Val, step), true)); isC && k == math.MaxInt64 {
+						stored = true
+					}
+				}
+			}
+			return true
+		})
+		if !stored {
+			ok = false
+		}
+		return true
+	})
+	return ok && n > 0
 }
